@@ -559,7 +559,15 @@ class FileCache:
         filepaths = [self._cache_file_path(uri) for uri in uris]
 
         # for all URI's not in cache
-        if cache_misses := self.get_cache_misses(uris, directives):
+        cache_misses = self.get_cache_misses(uris, directives)
+
+        # Mark the cache hits as recently used (last to be evicted).
+        missed_filepaths = [cache_miss.filepath for cache_miss in cache_misses]
+        for uri, filepath in zip(uris, filepaths):
+            if filepath not in missed_filepaths:
+                self._get_from_cache(self._cache_file_name(uri))
+
+        if cache_misses:
             was_succesfully_downloaded = _download_from_resources(
                 cache_misses,
                 self.resources,
